@@ -974,6 +974,19 @@ fn corpus() -> Vec<(Scenario, Vec<Query>)> {
             scn("corpus:invalid-escape-in-quote", None, None, &[("", "\"\\!x\" q=1\n")]),
             all(&["\"!x\"", "!x"]),
         ),
+        // round 2: quoted macro definitions (proved equal unless an escape/blank gets into the name) and NUL
+        (
+            scn("corpus:quoted-macro", None, None, &[("", "\"[attr]qm\" a -b\n\"[attr]q\\055m\"\tc\n*.x qm q-m\n")]),
+            all(&["f.x"]),
+        ),
+        (
+            scn("corpus:quoted-macro-blank", None, None, &[("", "\"[attr] sp x\" c\n*.x sp\n")]),
+            all(&["f.x"]),
+        ),
+        (
+            scn("corpus:nul", None, None, &[("", "*.x a b\0c\n*.y\0z d\n*.y e\n")]),
+            all(&["f.x", "f.y"]),
+        ),
     ]
 }
 
@@ -1009,7 +1022,16 @@ fn main() {
     for (mut scn, qs) in corpus() {
         // the two malformed-quote scenarios are judged although they are "outside": they are the
         // recorded known findings
-        if matches!(scn.label, Some("corpus:unterminated-quote" | "corpus:invalid-escape-in-quote")) {
+        if matches!(
+            scn.label,
+            Some(
+                "corpus:unterminated-quote"
+                    | "corpus:invalid-escape-in-quote"
+                    | "corpus:quoted-macro"
+                    | "corpus:quoted-macro-blank"
+                    | "corpus:nul"
+            )
+        ) {
             scn.outside = None;
         }
         cx.rep.bucket("scenario:corpus");
